@@ -604,19 +604,35 @@ Proof.
   rewrite curr_byte_same by lia. rewrite Hc. cbn [bind]. rewrite E. rewrite advance2_ok by lia. reflexivity.
 Qed.
 
-Lemma parse_attribute_loc p s' : p <= tlen T1 -> parse_attribute T1 (cs T1 p) = Ok s' ->
+Lemma consume_qname_bounds p pfx loc s' : consume_qname T1 (cs T1 p) = Ok (pfx, loc, s') ->
+  sl_start loc <= sl_end loc /\ sl_end loc <= s_pos s'.
+Proof.
+  intros H. unfold consume_qname in *. cbv zeta in *. cbn [cs s_pos] in H.
+  ib H x Hx. destruct x as [spl s1]. ib H y Hy. destruct y as [pf lc].
+  assert (Hb : sl_start lc <= sl_end lc /\ sl_end lc <= s_pos s1).
+  { unfold slice_back in *. destruct spl as [sp|].
+    - ib Hy a Ha. ib Hy l Hl. injection Hy as _ <-. destruct (mk_slice_val _ _ _ _ Hl) as [-> A2].
+      cbn [sl_start sl_end]. lia.
+    - ib Hy l Hl. ib Hy a Ha. injection Hy as _ <-. destruct (mk_slice_val _ _ _ _ Hl) as [-> A2].
+      cbn [sl_start sl_end]. lia. }
+  destruct (_ && _); [nok|]. destruct (negb _); [nok|]. injection H as _ <- <-. exact Hb.
+Qed.
+
+Lemma parse_attribute_loc p pf lc s' : p <= tlen T1 -> parse_attribute T1 (cs T1 p) = Ok (pf, lc, s') ->
   exists p', s' = cs T1 p' /\ p < p' /\ p' <= tlen T1 /\
     (forall lit, name_lit lit = true -> starts_with (cs T1 p) lit = true -> p + blen lit <= p') /\
-    (p' <= P -> parse_attribute T2 (cs T2 p) = Ok (cs T2 p')).
+    sl_start lc <= sl_end lc /\ sl_end lc <= p' /\
+    (p' <= P -> parse_attribute T2 (cs T2 p) = Ok (pf, lc, cs T2 p')).
 Proof.
   intros Hp H. unfold parse_attribute in *.
-  ib H x Hx. destruct x as [[pf lc] s1].
+  ib H x Hx. destruct x as [[pf0 lc0] s1].
   assert (Hmin : forall lit, name_lit lit = true -> starts_with (cs T1 p) lit = true -> p + blen lit <= s_pos s1).
   { intros lit Hl Hs. unfold starts_with in Hs. rewrite cs_avail in Hs.
     unfold consume_qname in Hx. cbv zeta in Hx. ib Hx y Hy. destruct y as [spl s0].
     apply (qname_loop_min _ lit _ _ _ _ _ Hl Hs) in Hy.
     ib Hx z Hz. destruct z as [zp zl]. destruct (_ && _); [nok|]. destruct (negb _); [nok|]. injection Hx as _ _ <-. exact Hy. }
-  destruct (consume_qname_loc p pf lc s1 Hp Hx) as (p1 & -> & A1 & A2 & A3). cbn [cs s_pos] in Hmin.
+  pose proof (consume_qname_bounds p pf0 lc0 s1 Hx) as Hbd.
+  destruct (consume_qname_loc p pf0 lc0 s1 Hp Hx) as (p1 & -> & A1 & A2 & A3). cbn [cs s_pos] in Hmin, Hbd.
   ib H s2 Hs2. destruct (consume_eq_loc p1 s2 A2 Hs2) as (p2 & -> & B1 & B2 & B3).
   ib H y Hy. destruct y as [quote s3]. destruct (consume_quote_loc p2 quote s3 Hy) as (-> & C1 & C2).
   ib H s4 Hs4. unfold skip_chars in Hs4.
@@ -626,13 +642,30 @@ Proof.
   destruct (skip_chars_loop_loc _ Hcont _ (S (length (s_rest (cs T2 (p2 + 1))))) (p2 + 1) s4 (fuel_le _ C1) C1 Hs4)
     as (p4 & -> & D1 & D2 & D3).
   ib H z Hz. unfold slice_back in Hz. cbn [cs s_pos] in Hz.
-  destruct (consume_byte_loc quote p4 s' H) as (-> & E1 & E2).
+  ib H s5 Hs5. injection H as <- <- <-.
+  destruct (consume_byte_loc quote p4 s5 Hs5) as (-> & E1 & E2).
   exists (p4 + 1). split; [reflexivity|]. split; [lia|]. split; [exact E1|].
   split. { intros lit Hl Hs. specialize (Hmin lit Hl Hs). lia. }
+  split; [lia|]. split; [lia|].
   intros Hle.
   rewrite (A3 ltac:(lia)). cbn [bind]. rewrite (B3 ltac:(lia)). cbn [bind]. rewrite (C2 ltac:(lia)). cbn [bind].
   unfold skip_chars. rewrite (D3 ltac:(lia)) by auto. cbn [bind]. unfold slice_back. cbn [cs s_pos].
-  rewrite (mk_slice_12 _ _ _ Hz) by lia. cbn [bind]. apply E2. exact Hle.
+  rewrite (mk_slice_12 _ _ _ Hz) by lia. cbn [bind]. rewrite (E2 Hle). reflexivity.
+Qed.
+
+Lemma parse_pseudo_attribute_loc name p s' : p <= tlen T1 -> parse_pseudo_attribute T1 name (cs T1 p) = Ok s' ->
+  exists p', s' = cs T1 p' /\ p < p' /\ p' <= tlen T1 /\
+    (forall lit, name_lit lit = true -> starts_with (cs T1 p) lit = true -> p + blen lit <= p') /\
+    (p' <= P -> parse_pseudo_attribute T2 name (cs T2 p) = Ok (cs T2 p')).
+Proof.
+  intros Hp H. unfold parse_pseudo_attribute in *. cbv zeta in *.
+  ib H x Hx. destruct x as [[pf lc] s1].
+  destruct (parse_attribute_loc p pf lc s1 Hp Hx) as (p1 & -> & A1 & A2 & Am & L1 & L2 & A3).
+  destruct (negb (slice_len pf =? 0) || negb (bytes_eqb (slice_bytes T1 lc) name)) eqn:E; [nok|].
+  injection H as <-.
+  exists p1. split; [reflexivity|]. split; [exact A1|]. split; [exact A2|]. split; [exact Am|].
+  intros Hle. rewrite (A3 Hle). cbn [bind].
+  rewrite slice_bytes_12 by lia. rewrite E. reflexivity.
 Qed.
 
 Lemma decl_consume_spaces_loc p s' : p <= tlen T1 -> decl_consume_spaces T1 (cs T1 p) = Ok s' ->
@@ -667,16 +700,16 @@ Proof.
   ib H s2 Hs2. destruct (decl_consume_spaces_loc (p + 5) s2 ltac:(lia) Hs2) as (p2 & -> & A1 & A2 & A3).
   destruct (starts_with (cs T1 p2) (b "version")) eqn:Ev; cbn [negb] in H.
   2:{ unfold skip_string in H. rewrite Ev in H. cbn [negb] in H. nok. }
-  ib H s3 Hs3. destruct (parse_attribute_loc p2 s3 A2 Hs3) as (p3 & -> & B1 & B2 & Bm & B3).
+  ib H s3 Hs3. destruct (parse_pseudo_attribute_loc _ p2 s3 A2 Hs3) as (p3 & -> & B1 & B2 & Bm & B3).
   pose proof (Bm _ name_lit_version Ev) as Bv. change (blen (b "version")) with 7 in Bv.
   ib H s4 Hs4. destruct (decl_consume_spaces_loc p3 s4 B2 Hs4) as (p4 & -> & C1 & C2 & C3).
   ib H s5 Hs5.
   assert (HE : exists p5, s5 = cs T1 p5 /\ p4 <= p5 /\ p5 <= tlen T1 /\
      (p5 + 2 <= P -> (if starts_with (cs T2 p4) (b "encoding")
-                      then let! s := parse_attribute T2 (cs T2 p4) in decl_consume_spaces T2 s
+                      then let! s := parse_pseudo_attribute T2 (b "encoding") (cs T2 p4) in decl_consume_spaces T2 s
                       else Ok (cs T2 p4)) = Ok (cs T2 p5))).
   { destruct (starts_with (cs T1 p4) (b "encoding")) eqn:Ee.
-    - ib Hs5 s6 Hs6. destruct (parse_attribute_loc p4 s6 C2 Hs6) as (p6 & -> & D1 & D2 & Dm & D3).
+    - ib Hs5 s6 Hs6. destruct (parse_pseudo_attribute_loc _ p4 s6 C2 Hs6) as (p6 & -> & D1 & D2 & Dm & D3).
       pose proof (Dm _ name_lit_encoding Ee) as Dv. change (blen (b "encoding")) with 8 in Dv.
       destruct (decl_consume_spaces_loc p6 s5 D2 Hs5) as (p7 & -> & F1 & F2 & F3).
       exists p7. split; [reflexivity|]. split; [lia|]. split; [exact F2|]. intros Hle.
@@ -687,10 +720,10 @@ Proof.
   destruct HE as (p5 & -> & G1 & G2 & G3).
   ib H s6 Hs6.
   assert (HS : exists p6, s6 = cs T1 p6 /\ p5 <= p6 /\ p6 <= tlen T1 /\
-     (p6 <= P -> (if starts_with (cs T2 p5) (b "standalone") then parse_attribute T2 (cs T2 p5)
+     (p6 <= P -> (if starts_with (cs T2 p5) (b "standalone") then parse_pseudo_attribute T2 (b "standalone") (cs T2 p5)
                   else Ok (cs T2 p5)) = Ok (cs T2 p6))).
   { destruct (starts_with (cs T1 p5) (b "standalone")) eqn:Ee.
-    - destruct (parse_attribute_loc p5 s6 G2 Hs6) as (p6 & -> & D1 & D2 & Dm & D3).
+    - destruct (parse_pseudo_attribute_loc _ p5 s6 G2 Hs6) as (p6 & -> & D1 & D2 & Dm & D3).
       pose proof (Dm _ name_lit_standalone Ee) as Dv. change (blen (b "standalone")) with 10 in Dv.
       exists p6. split; [reflexivity|]. split; [lia|]. split; [exact D2|]. intros Hle.
       rewrite (sw_true p5 _ Ee) by (change (blen (b "standalone")) with 10; lia). apply D3. exact Hle.
